@@ -5,6 +5,7 @@ import (
 	"path/filepath"
 	"sort"
 	"strings"
+	"sync"
 
 	"verifharness/vh"
 )
@@ -50,6 +51,8 @@ type observed struct {
 	Pk  int        `json:"pk"`
 	Tbl [][]string `json:"tbl"`
 	St  string     `json:"st"`
+
+	commit uint64
 }
 
 type deviation struct {
@@ -168,11 +171,15 @@ func (e *env) scan() [][]string {
 	if err != nil {
 		vh.Fatalf("full scan: %v", err)
 	}
-	return sorted(norm(rows))
+	out := sorted(norm(rows))
+	if out == nil {
+		out = [][]string{}
+	}
+	return out
 }
 
 // breach evaluates the declared constraints on a real table (property C12, directly on the observation).
-func breach(tbl [][]string, uidx bool, uvals, vvals map[string]bool) string {
+func breach(tbl [][]string, uidx bool) string {
 	ids, us := map[string]bool{}, map[string]bool{}
 	for _, r := range tbl {
 		if ids[r[0]] {
@@ -207,7 +214,7 @@ func outOf(class string) string {
 }
 
 // runStep executes one abstract step on the real engine and observes everything a client can see.
-func (e *env) runStep(st step) observed {
+func (e *env) runStep(st step, last bool) observed {
 	o := observed{S: st.S, K: st.K, Id: st.Id, U: st.U, V: st.V, Res: [][]string{}}
 	if st.K == "close" {
 		if err := e.cancel(st.S); err != nil {
@@ -245,12 +252,16 @@ func (e *env) runStep(st step) observed {
 			o.Pk = int(x.LastPK)
 		}
 	}
-	if tx := e.sess[st.S]; tx != nil && !tx.Closed() {
+	if tx := e.sess[st.S+1]; tx != nil && !tx.Closed() {
 		o.St = "tx"
 	} else {
 		o.St = "idle"
 	}
-	o.Tbl = e.scan()
+	// full scan in a fresh read after every step that ends outside a transaction (autocommit statement, COMMIT,
+	// ROLLBACK, failed statement, failed COMMIT) and at the end of the behaviour
+	if o.St != "tx" || last {
+		o.Tbl = e.scan()
+	}
 	return o
 }
 
@@ -275,118 +286,160 @@ func compare(exp step, o observed) string {
 	if o.Out == "ok" && exp.K == "insA" && exp.Pk != o.Pk {
 		return "pk"
 	}
-	if !eqRows(norm(exp.Tbl), o.Tbl) {
+	if o.Tbl != nil && !eqRows(norm(exp.Tbl), o.Tbl) {
 		return "tbl"
 	}
 	return ""
 }
 
-func runReplay(path string, dir string, selftest bool, res *vh.Result) {
+func runReplay(path string, dir string, selftest bool, par int, res *vh.Result) {
 	var bf behaviourFile
 	vh.ReadJSON(path, &bf)
-	uvals := map[string]bool{}
-	vvals := map[string]bool{}
+	var mu sync.Mutex
 	var devs []deviation
-	corrupted := false
-	for bi, b := range bf.Behaviours {
-		e := newEnv(filepath.Join(dir, fmt.Sprintf("b%d", bi)))
-		if x := e.exec(0, createTable); x.Err != nil {
-			vh.Fatalf("create table: %v", x.Err)
-		}
-		if bf.UIdx {
-			if x := e.exec(0, createIndex); x.Err != nil {
-				vh.Fatalf("create index: %v", x.Err)
-			}
-		}
-		uidx := bf.UIdx
-		res.Traces++
-		var obs []observed
-		var sqls []string
-		for si, st := range b.Steps {
-			if selftest && !corrupted && st.K == "commit" && st.Out == "ok" && len(st.Tbl) > 0 {
-				// binding self-test: corrupt one expected value; the replay must report a deviation
-				st.Tbl = st.Tbl[1:]
-				corrupted = true
-			}
-			text, _ := sqlOf2(st)
-			sqls = append(sqls, fmt.Sprintf("s%d: %s", st.S, text))
-			o := e.runStep(st)
-			obs = append(obs, o)
-			res.Evaluations++
-			res.Count("stmt:"+st.K+":"+o.Out, 1)
-			if st.K == "crIdx" && o.Out == "ok" {
-				uidx = true
-			}
-			if o.Out == "panic" {
-				devs = append(devs, deviation{B: bi, Origin: b.Origin, Step: si, Field: "out", Class: "panic", Kind: st.K,
-					Text: fmt.Sprintf("%s panicked or hung: %s", text, o.Err), Expected: st, Observed: obs, SQL: sqls})
-				break
-			}
-			why := breach(o.Tbl, uidx, uvals, vvals)
-			field := compare(st, o)
-			if field == "" && why == "" {
-				continue
-			}
-			// COMMIT outcome: a read conflict is always an allowed outcome for a transaction that raced with a commit,
-			// and a commit the transcribed read-set would refuse is fine as long as no constraint breaks
-			if st.K == "commit" && why == "" && field == "out" && (st.Out == "conflict" || o.Out == "conflict") {
-				if o.Out == "conflict" && !st.May {
-					res.Count("drift:conflict-without-concurrent-commit", 1)
-				} else if o.Out == "conflict" {
-					res.Count("drift:conflict-not-predicted", 1)
-				} else if !st.Must {
-					res.Count("drift:predicted-conflict-did-not-happen", 1)
+	evals, traces := 0, 0
+	jobs := make(chan int)
+	var wg sync.WaitGroup
+	for w := 0; w < par; w++ {
+		wg.Add(1)
+		go func() {
+			defer wg.Done()
+			for bi := range jobs {
+				d, n := replayOne(bi, bf.Behaviours[bi], bf.UIdx, filepath.Join(dir, fmt.Sprintf("b%d", bi)), selftest, res)
+				mu.Lock()
+				evals += n
+				traces++
+				if d != nil {
+					devs = append(devs, *d)
 				}
-				if !(o.Out == "ok" && st.Must) {
-					res.DriftNote(fmt.Sprintf("COMMIT of s%d after %v: model %s, engine %s", st.S, sqls, st.Out, o.Out))
-					break // the rest of the behaviour assumed the other outcome
-				}
+				mu.Unlock()
 			}
-			d := deviation{B: bi, Origin: b.Origin, Step: si, Field: field, Kind: st.K, Expected: st, Observed: obs, SQL: sqls}
-			switch {
-			case why != "":
-				d.Class = "constraint-breach"
-				d.Text = fmt.Sprintf("committed table %v violates a declared constraint: %s", o.Tbl, why)
-			case field == "out" && st.Out == "ok":
-				d.Class = "spurious-failure"
-				d.Text = fmt.Sprintf("%q fails with %q; the design executes it", text, o.Err)
-			case field == "out" && o.Out == "ok":
-				d.Class = "violating-statement-accepted"
-				d.Text = fmt.Sprintf("%q succeeds; the design refuses it (%s)", text, st.Out)
-			case field == "out":
-				d.Class = "outcome"
-				d.Text = fmt.Sprintf("%q: engine %s (%s), design %s", text, o.Out, o.Err, st.Out)
-			case field == "st":
-				d.Class = "tx-state"
-				d.Text = fmt.Sprintf("after %q the session is %q, design %q", text, o.St, st.St)
-			case field == "res":
-				d.Class = "query-result"
-				d.Text = fmt.Sprintf("%q returns %v, design %v", text, o.Res, norm(st.Res))
-			case field == "cnt":
-				d.Class = "count"
-				d.Text = fmt.Sprintf("%q reports %d affected rows, design %d", text, o.Cnt, st.Cnt)
-			case field == "pk":
-				d.Class = "generated-key"
-				d.Text = fmt.Sprintf("%q reports generated key %d, design %d", text, o.Pk, st.Pk)
-			case st.Out != "ok":
-				d.Class = "failed-statement-effect"
-				d.Text = fmt.Sprintf("after the failed %q the committed table is %v, design %v", text, o.Tbl, norm(st.Tbl))
-			default:
-				d.Class = "table"
-				d.Text = fmt.Sprintf("after %q the committed table is %v, design %v", text, o.Tbl, norm(st.Tbl))
-			}
-			d.Text = fmt.Sprintf("%s  [history: %s]", d.Text, strings.Join(sqls, "; "))
-			devs = append(devs, d)
-			break
-		}
-		if bi < 2 {
-			res.Sample(map[string]interface{}{"origin": b.Origin, "sql": sqls}, 6)
-		}
-		e.close()
+		}()
 	}
+	for bi := range bf.Behaviours {
+		jobs <- bi
+	}
+	close(jobs)
+	wg.Wait()
+	sort.Slice(devs, func(i, j int) bool { return devs[i].B < devs[j].B })
+	res.Evaluations += evals
+	res.Traces += traces
 	res.Distinct += len(bf.Behaviours)
 	res.Extra["deviations"] = devs
 	res.Count("deviations", len(devs))
+}
+
+// replayOne runs one behaviour on a fresh store; returns its first deviation from the design (nil = conforms).
+func replayOne(bi int, b behaviour, uidx0 bool, dir string, selftest bool, res *vh.Result) (*deviation, int) {
+	e := newEnv(dir)
+	defer e.close()
+	if x := e.exec(0, createTable); x.Err != nil {
+		vh.Fatalf("create table: %v", x.Err)
+	}
+	if uidx0 {
+		if x := e.exec(0, createIndex); x.Err != nil {
+			vh.Fatalf("create index: %v", x.Err)
+		}
+	}
+	uidx := uidx0
+	var obs []observed
+	var sqls []string
+	n := 0
+	defer func() {
+		if bi < 2 {
+			res.Sample(map[string]interface{}{"origin": b.Origin, "sql": sqls}, 6)
+		}
+	}()
+	for si, st := range b.Steps {
+		if selftest && st.K == "commit" && st.Out == "ok" && len(st.Tbl) > 0 {
+			st.Tbl = st.Tbl[1:] // binding self-test: corrupt one expected value per behaviour; the replay must report it
+			selftest = false
+		}
+		text, _ := sqlOf2(st)
+		sqls = append(sqls, fmt.Sprintf("s%d: %s", st.S, text))
+		o := e.runStep(st, si == len(b.Steps)-1)
+		obs = append(obs, o)
+		n++
+		res.Count("stmt:"+st.K+":"+o.Out, 1)
+		if st.K == "crIdx" && o.Out == "ok" {
+			uidx = true
+		}
+		if o.Out == "panic" {
+			return &deviation{B: bi, Origin: b.Origin, Step: si, Field: "out", Class: "panic", Kind: st.K,
+				Text: fmt.Sprintf("%s panicked or hung: %s", text, o.Err), Expected: st, Observed: obs, SQL: sqls}, n
+		}
+		why := ""
+		if o.Tbl != nil {
+			why = breach(o.Tbl, uidx)
+		}
+		field := compare(st, o)
+		if field == "" && why == "" {
+			continue
+		}
+		// COMMIT outcome: a read conflict is always an allowed outcome for a transaction that raced with a commit,
+		// and a commit the transcribed read-set would refuse is fine as long as no constraint breaks
+		if st.K == "commit" && why == "" && field == "out" && (st.Out == "conflict" || o.Out == "conflict") {
+			if o.Out == "conflict" && !st.May {
+				res.Count("drift:conflict-without-concurrent-commit", 1)
+			} else if o.Out == "conflict" {
+				res.Count("drift:conflict-not-predicted", 1)
+			} else if !st.Must {
+				res.Count("drift:predicted-conflict-did-not-happen", 1)
+			}
+			if !(o.Out == "ok" && st.Must) {
+				res.DriftNote(fmt.Sprintf("COMMIT of s%d after %v: model %s, engine %s", st.S, sqls, st.Out, o.Out))
+				return nil, n // the rest of the behaviour assumed the other outcome
+			}
+		}
+		d := &deviation{B: bi, Origin: b.Origin, Step: si, Field: field, Kind: st.K, Expected: st, Observed: obs, SQL: sqls}
+		// a statement the design refuses was accepted inside a transaction: commit it and look at the table
+		if why == "" && field == "out" && st.Out == "err" && o.Out == "ok" && o.St == "tx" {
+			probe := step{S: st.S, K: "commit"}
+			po := e.runStep(probe, true)
+			if w2 := breach(po.Tbl, uidx); w2 != "" && po.Out == "ok" {
+				d.Observed = append(d.Observed, po)
+				d.SQL = append(d.SQL, fmt.Sprintf("s%d: COMMIT", st.S))
+				sqls = d.SQL
+				o = po
+				why = w2
+			}
+		}
+		switch {
+		case why != "":
+			d.Class = "constraint-breach"
+			d.Text = fmt.Sprintf("committed table %v violates a declared constraint: %s", o.Tbl, why)
+		case field == "out" && st.Out == "ok":
+			d.Class = "spurious-failure"
+			d.Text = fmt.Sprintf("%q fails with %q; the design executes it", text, o.Err)
+		case field == "out" && o.Out == "ok":
+			d.Class = "violating-statement-accepted"
+			d.Text = fmt.Sprintf("%q succeeds; the design refuses it (%s)", text, st.Out)
+		case field == "out":
+			d.Class = "outcome"
+			d.Text = fmt.Sprintf("%q: engine %s (%s), design %s", text, o.Out, o.Err, st.Out)
+		case field == "st":
+			d.Class = "tx-state"
+			d.Text = fmt.Sprintf("after %q the session is %q, design %q", text, o.St, st.St)
+		case field == "res":
+			d.Class = "query-result"
+			d.Text = fmt.Sprintf("%q returns %v, design %v", text, o.Res, norm(st.Res))
+		case field == "cnt":
+			d.Class = "count"
+			d.Text = fmt.Sprintf("%q reports %d affected rows, design %d", text, o.Cnt, st.Cnt)
+		case field == "pk":
+			d.Class = "generated-key"
+			d.Text = fmt.Sprintf("%q reports generated key %d, design %d", text, o.Pk, st.Pk)
+		case st.Out != "ok":
+			d.Class = "failed-statement-effect"
+			d.Text = fmt.Sprintf("after the failed %q the committed table is %v, design %v", text, o.Tbl, norm(st.Tbl))
+		default:
+			d.Class = "table"
+			d.Text = fmt.Sprintf("after %q the committed table is %v, design %v", text, o.Tbl, norm(st.Tbl))
+		}
+		d.Text = fmt.Sprintf("%s  [history: %s]", d.Text, strings.Join(sqls, "; "))
+		return d, n
+	}
+	return nil, n
 }
 
 func sqlOf2(st step) (string, bool) {
